@@ -161,14 +161,39 @@ def _history_async(rng, n_msgs, rank, p_msg=0.62):
 
 def _history_sync(rng, n_msgs, p_msg=0.62):
     with ThreadedSession() as s:
+        sim_struct = s.peer.sim.structure
+        hot = [rng.randrange(0, 1022) for _ in range(6)]
+        ev = []
+        # partial updates that arrive during the handshake, before the first full block: each is
+        # acknowledged, and none of its records may come back with a later message
+        for k in range(rng.choice([1, 2])):
+            for _ in range(400):
+                s.pump(1)
+                if any((inner(d) or b"").startswith((b"CURCH", b"SFILE", b"STATU")[k:k + 1] or b"STATU") for d in s.wire()):
+                    break
+            if s.facade.is_connected:
+                break
+            ch = _gen_message(rng, hot) or [(hot[0], bytes([rng.randrange(256), rng.randrange(256)]))]
+            for pos, data in ch:
+                sim_struct.replace_status_block_segment(pos, data)
+            nsent = len(s.sock.wire)
+            s.inject(s.peer.push_changes(s.client_parms(), ch))
+            for _ in range(60):              # behind queued handshake traffic and the send throttle
+                s.pump(1)
+                if _acks(s.wire()[nsent:]):
+                    break
+            s.pump(3)
+            ev.append({"k": "early", "ch": [{"pos": p_, "data": list(d)} for p_, d in ch], "acks": _acks(s.wire()[nsent:])})
         if not s.wait_connected():
             raise env.MachineryError("threaded session did not connect")
         spa = s.spa
-        sim_struct = s.peer.sim.structure
+        s.pump(40)
         init = list(spa.struct.status_block)
+        if bytes(init) != sim_struct.status_block:
+            s.spa.refresh()
+            s.pump(80)
+            init = list(spa.struct.status_block)
         w = _Watch(spa.struct, lambda: "engine")
-        hot = [rng.randrange(0, 1022) for _ in range(6)]
-        ev = []
         for i in range(n_msgs):
             r = rng.random()
             nsent = len(s.sock.wire)
